@@ -29,4 +29,29 @@ theorem louvainProject_entry (n m : Nat) (a : Mat α) (labels : List Int) (i c :
     refine Finset.sum_congr rfl fun j _ => ?_
     split <;> simp [div_eq_mul_inv, mul_comm]
 
+/-- `reindex_labels` never fails without secondary labels -/
+theorem reindexLabels_none (labels : List Nat) (which : Isolated) :
+    ∃ prim, reindexLabels labels none which = .ok (prim, none) ∧ prim.length = labels.length := by
+  refine ⟨_, rfl, ?_⟩
+  simp
+
+/-- **LouvainEmbedding at fit level**: whatever labels Louvain returned, a successful `fit` gives
+    `embedding_[i][c]` = share of the weight of row `i` carried by the columns whose (re-indexed) label `labels_` is `c`. -/
+theorem louvainEmbFit_entry (nRow nCol : Nat) (a : Mat α) (ln lr lc : List Nat) (which : Isolated)
+    {out : LouvainEmbOut α} (h : louvainEmbFit nRow nCol a ln lr lc which = .ok out)
+    (i c : Nat) (hi : i < nRow) (hc : c < membershipCols out.labels) :
+    mget out.embedding i c = Spec.louvainEntry nCol a out.labels i c := by
+  unfold louvainEmbFit at h
+  by_cases hsq : (nRow == nCol) = true
+  · simp only [hsq, if_true, reindexLabels, bind, Except.bind, pure, Except.pure] at h
+    have := Except.ok.inj h
+    rw [← this] at hc ⊢
+    exact louvainProject_entry nRow nCol a _ i c hi hc
+  · simp only [hsq, if_false, Bool.false_eq_true, reindexLabels, bind, Except.bind, pure, Except.pure] at h
+    split at h
+    · cases h
+    · have := Except.ok.inj h
+      rw [← this] at hc ⊢
+      exact louvainProject_entry nRow nCol a _ i c hi hc
+
 end SkNet.Embedding
